@@ -1072,3 +1072,16 @@ def c05l(ctx):
         fb = [x for x in f.walk() if is_call(x, 'self.load_tile' if m == 'load_tiles' else 'self.store_tile')]
         ok = bool(fb) and all(isinstance(enclosing(x, ast.For), ast.For) and unparse(enclosing(x, ast.For).iter) == 'tiles' for x in fb)
         ctx.check(ok, 'CompactCacheBase.%s:fallback-per-tile' % m, 'otherwise every tile is handled individually', f)
+
+
+@rule('C05.m', floor=10)
+def c05m(ctx):
+    """a store to one address never destroys another address of the same bundle: every bundle mutation, and the construction of
+    the V1 data/index objects that create missing files, happens under the bundle lock (shared rule C08.d)"""
+    from ..engine import run_property
+    sub = run_property(ctx.repo, 'C08', ctx.tier, only={'C08.d'})
+    for er in sub.errors:
+        raise Undecided('shared rule %s: %s' % er)
+    for o in sub.obs:
+        (ctx.ok if o.status == 'ok' else ctx.bad)('%s:%s' % (o.rule, o.construct), o.msg, o.where)
+    ctx.stats['functions'] |= sub.stats['functions']
